@@ -23,5 +23,10 @@ def check(fb, ctx):
     chain.mode_selection_rules(fb, ctx)
     chain.primitive_rules(fb, ctx)
     chain.decode_gates(fb, ctx)
+    if ctx.tier == "thorough":
+        # type-level part of TYPESTATE, decided by the compiler: an external crate cannot build or convert to a Biscuit without
+        # going through verification (4 compile-fail witnesses + 4 compiling twins, witness/src/lib.rs)
+        import witness
+        witness.run(ctx)
     ctx.not_decided = ["cryptographic unforgeability of the signature schemes", "that no other byte string verifies (protobuf canonicity)", "behaviour of user RootKeyProvider implementations"]
     ctx.trusted = ["oracle/signature_layout.json (from the specification)", "ed25519-dalek verify_strict, p256 ecdsa verify", "rustc MIR"]
